@@ -236,15 +236,24 @@ impl Complex {
 	}
 
 	pub(crate) fn floor<I: Interrupt>(self, int: &I) -> FResult<Exact<Real>> {
-		Ok(Exact::new(self.expect_real()?.floor(int)?, true))
+		let real = self.expect_real()?;
+		// a non-zero multiple of pi is rounded from its rational approximation
+		let exact = real.is_zero() || real.clone().expect_rational().is_ok();
+		Ok(Exact::new(real.floor(int)?, exact))
 	}
 
 	pub(crate) fn ceil<I: Interrupt>(self, int: &I) -> FResult<Exact<Real>> {
-		Ok(Exact::new(self.expect_real()?.ceil(int)?, true))
+		let real = self.expect_real()?;
+		// a non-zero multiple of pi is rounded from its rational approximation
+		let exact = real.is_zero() || real.clone().expect_rational().is_ok();
+		Ok(Exact::new(real.ceil(int)?, exact))
 	}
 
 	pub(crate) fn round<I: Interrupt>(self, int: &I) -> FResult<Exact<Real>> {
-		Ok(Exact::new(self.expect_real()?.round(int)?, true))
+		let real = self.expect_real()?;
+		// a non-zero multiple of pi is rounded from its rational approximation
+		let exact = real.is_zero() || real.clone().expect_rational().is_ok();
+		Ok(Exact::new(real.round(int)?, exact))
 	}
 
 	pub(crate) fn arg<I: Interrupt>(self, int: &I) -> FResult<Exact<Real>> {
